@@ -1,15 +1,15 @@
 """C08: see DESIGN.md section 3 C08."""
-from _ccmon import standard_plan, floor_msgs, COMMON_ASSUMPTIONS, EVOLVE_NOTE
+from _ccmon import standard_plan, floor_msgs, COMMON_ASSUMPTIONS, EVOLVE_NOTE, FAULT_NOTE
 
 LEVEL = "exploration"
 RULE = 'histories are generated per shard from (seed, index) by harness/src/gen.rs (weights of mode C08: 30% weak operations at top level, finalizers / cleaning actions / destructors that upgrade; plus the differential mode C08diff (same history with and without its Weak operations must reclaim the same objects at every collect-until-quiet)) plus the directed corpus harness/src/directed.rs; each is executed against the real crate with all oracles on, followed by an epilogue that releases everything and collects until quiet. distinct = distinct expanded operation lists (FNV hash); non-trivial iff upgrade() returned both Some and None in the history and at least one upgrade was attempted from inside a callback'
-RULE += EVOLVE_NOTE
+RULE += EVOLVE_NOTE + FAULT_NOTE
 ASSUMPTIONS = COMMON_ASSUMPTIONS
 FLOORS = {'upgrades_some': 1000, 'upgrades_none': 1000, 'upgrade_site_finalizer': 50, 'upgrade_site_action': 20, 'differential_pairs': 100}
 
 
 def plan(ctx):
-    return standard_plan(ctx, "C08", mode="C08", need_weak=True, extra_modes=('C08diff',))
+    return standard_plan(ctx, "C08", mode="C08", after_faults=True, need_weak=True, extra_modes=('C08diff',))
 
 
 def floors(ctx, evaluations, distinct, counters, sets):
